@@ -207,10 +207,10 @@ def shard(args):
                 out["violations"].append({"signature": f"C06:date-outside-not-rejected:{kind}", "detail": f"outcome {raised}", "replay": replay})
             if kind == "naive" and raised != "naive-date":
                 out["violations"].append({"signature": "C06:naive-date-not-rejected", "detail": f"outcome {raised}", "replay": replay})
-        if sim is None or raised or changed:
+        if sim is None or raised:
             continue
         # ---- toggles (C05)
-        if "C05" in which:
+        if "C05" in which and not changed:
             word = [rng.choice(["set", "reset"]) for _ in range(rng.randint(1, 6))] + ["reset"]
             try:
                 with watchdog(60):
@@ -269,6 +269,56 @@ def shard(args):
                         out["violations"].append({"signature": f"C06:real-update-refused-but-simulation-accepted:{err2}", "detail": str(labels), "replay": replay})
                 except Exception as e:  # noqa
                     out["violations"].append({"signature": f"C06:set-values-raises:{err_enum(e)}", "detail": str(e)[:200], "replay": replay})
+            # a second what-if on the same system, dated at the first hour, after the first one has been made and
+            # undone: it must still equal really making its changes on a freshly built identical model
+            if kind in ("first", "interior", "last") and not trig:
+                try:
+                    with watchdog(180):
+                        # an input upstream of the per-usage-pattern values of the jobs
+                        ops2 = []
+                        reach2 = eo.reachable_spec_names(live.spec)
+                        for _ in range(20):
+                            o2 = history.gen_numeric_edit(rng, live.spec, kinds=["jobs", "steps"])
+                            if o2 and o2["name"] in reach2 and eo.safe_after(live, o2):
+                                ops2 = [o2]
+                                break
+                        # … preceded by a what-if on an input downstream of them (the per-usage-pattern values are then
+                        # cut at the date and put back, not recomputed)
+                        for _ in range(20):
+                            oa = history.gen_numeric_edit(rng, live.spec, kinds=["servers", "storages", "networks"])
+                            if oa and oa["name"] in reach2 and eo.safe_after(live, oa) and oa["param"] != "fixed_nb_of_instances":
+                                try:
+                                    ModelingUpdate(build_changes(live, [oa]), simulation_date=first)
+                                except Exception:  # noqa  (a refused what-if ends this part of the case)
+                                    ops2 = []
+                                break
+                        if ops2:
+                            sim2 = ModelingUpdate(build_changes(live, ops2), simulation_date=first)
+                            sim2.set_updated_values()
+                            names = live.reachable_names()
+                            simobs = {k: v for k, v in live.rs.observe().items() if k[0] in names}
+                            sim2.reset_values()
+                            live2 = Live(spec)
+                            st2, err2 = live2.apply({"op": "group", "changes": ops2})
+                            if st2 == "ok":
+                                names2 = live2.reachable_names()
+                                realobs = {k: v for k, v in live2.rs.observe().items() if k[0] in names2}
+                                common = {k for k in simobs if k in realobs}
+                                a = {k: simobs[k] for k in common}
+                                b = {k: realobs[k] for k in common}
+                                sens = sysoracles.ceil_sensitive(spec, a) | sysoracles.ceil_sensitive(spec, b)
+                                if sens:
+                                    sens |= {"__system__"}
+                                why = sysoracles.obs_diff(sysoracles.drop_objects(a, sens), sysoracles.drop_objects(b, sens))
+                                if why:
+                                    out["violations"].append({"signature": "C06:second-simulation-differs-from-real-update",
+                                                              "detail": f"after a first what-if {labels} at {kind}, the what-if {[eo.op_label(o) for o in ops2]} at the first hour: {why}",
+                                                              "replay": dict(replay, second=ops2)})
+                            out["second_sims"] = out.get("second_sims", 0) + 1
+                except Exception as e:  # noqa
+                    if "lean driver failed" in str(e):
+                        raise
+                    out["second_sim_errors"] = out.get("second_sim_errors", 0) + 1
         out["hashes"].append(eo.sysoracles_hash(spec, [ops, kind]))
         if len(out["samples"]) < 1:
             out["samples"].append({"changes": labels, "date": kind})
